@@ -26,7 +26,8 @@ META = dict(
                "outside ValueError/RuntimeError (only a user validator that itself raises TypeError was found) are excluded by "
                "hypothesis from C08_binding and from the oracle; C08_foreign_exception_not_invoked covers them. "
                "None is never converted (the code's `if value is None: continue`). "
-               "Trusted: Coq kernel + vm_compute; pydantic's parse_obj_as enters as a finite table of its real answers; the "
+               "Trusted: Coq kernel + vm_compute; `convertible` is pydantic's notion: it enters as a finite table of the library's own "
+               "answers (TypeAdapter(annotation).validate_python called directly, never through taskiq.compat); the "
                "serializer/pydantic round trip is validated by the differential run only (orjson/msgpack/cbor serializers are "
                "not importable in this sandbox and are out of reach).",
     rule="case = (generated def/async def signature, positional/keyword split, values, validate_params, formatter, serializer); "
@@ -34,7 +35,8 @@ META = dict(
          "parameter, or a consulted conversion fails; distinct by canonical JSON of the case",
     trusted_base=["model: coq/theories/Params.v (hand-written transcription of parse_params, run_task's call assembly, CPython "
                   "argument binding, kicker._prepare_message, formatter composition)",
-                  "parse_obj_as (pydantic) = Section variable `conv`, instantiated per case by a table of the real function's answers",
+                  "parse_obj_as (pydantic) = Section variable `conv`, instantiated per case by a table of pydantic's own answers "
+                  "(pydantic.TypeAdapter(annotation).validate_python, asked directly - independent of /repo's taskiq.compat wrapper)",
                   "hypotheses of C08_binding: Any validates to its input; parse_obj_as raises only ValueError/RuntimeError",
                   "hypotheses of C08_formatter_roundtrip_partial: serializer loadb(dumpb v) = v on message dumps; pydantic validate(dump m) = m",
                   "canonicaliser and value/type/name numbering in harness/drivers/params_driver.py and harness/props/C08.py"],
@@ -136,10 +138,41 @@ AIMED = {
 }
 
 
+# Values on which a *Python constructor call* (`int(v)`, `float(v)`, `bool(v)`, `str(v)`, `list(v)`, `M1(**v)` ...) and
+# pydantic's validator for the same annotation disagree or might plausibly be made to disagree: the constructor converts
+# lossily / differently where pydantic refuses (value must then arrive unchanged), or refuses where pydantic converts.
+# All JSON-representable (finite floats, str keys).  "Convertible" is pydantic's notion, measured on the library itself
+# (driver: reference_parse), so these inputs separate parse_params + taskiq.compat from any shortcut around pydantic.
+EDGE = {
+    "int": [2.5, 7.25, -0.75, 0.999, 1e30, -1e30, 1e300, 1e16, 4.0, -0.0, 2.0**53, "1.5", " 7 ", "1e3", "0x10", "0b11",
+            "\u0661\u0662", "\u0663", "True", "1_000", "1__0", "7.0", "7.00", "7.5", "7.", "-0", "+7", "1e-1", " ", "12abc",
+            "\u00bd", "9" * 60, True, False, 2**70, [7], {"a": 7}],
+    "float": [2**53 + 1, 10**400, 10**30, -2**70, True, False, " 1.5 ", "1_0.5", "inf", "-inf", "Infinity", "nan",
+              "0x10", "\u0661\u0662.\u0665", "\u0663", "1,5", "1e400", ".5", "5.", "1.5f", "True", "1__0", "", [1.5]],
+    "bool": ["on", "off", "0", "1", "t", "f", "y", "n", "TRUE", "True", "False", " true", "false", "maybe", "", "2", "1.0",
+             0.0, 2, -1, 0.5, 2.5, [], [True], {}, "\u0661"],
+    "str": [0, 5, -3, 2**70, 5.5, 1e30, -0.0, True, False, [], ["a"], {}, {"a": "b"}],
+    "Optional[int]": [2.5, -0.75, "2.5", True, "\u0661\u0662", 1e30, 4.0, "7.0", [1]],
+    "Union[int,str]": [2.5, 7.0, True, 1e30, [1], {"a": 1}],
+    "List[int]": [[1.5], [2.0], [1, 2.5], ["1.5"], ["7.0"], [True], [" 7 "], ["\u0661\u0662"], "12", 5, 2.5, {"0": 1}, [[1.5]]],
+    "Dict[str,int]": [{"a": 1.5}, {"a": 2.0}, {"a": "1.5"}, {"a": "7.0"}, {"a": True}, {"a": "\u0661"}, [["a", 1]], "a", 2.5],
+    "M1": [{"x": 2.5}, {"x": 4.0}, {"x": "1.5"}, {"x": "7.0"}, {"x": True}, {"x": "\u0661\u0662"}, {"x": 1, "y": 5}, [1], 2.5],
+    "D1": [{"x": 2.5}, {"x": 4.0}, {"x": "7.0"}, {"x": 1, "y": [1.5]}, {"x": True}, 2.5],
+    "NZ": [2.5, "2.5", True, 1e30, "\u0661\u0662", " 7 "],
+}
+EDGE_KEYS = {a: {json.dumps(v, sort_keys=True) for v in vs} for a, vs in EDGE.items()}
+
+
+def is_edge(ann, spec):
+    return ann in EDGE_KEYS and "j" in spec and json.dumps(spec["j"], sort_keys=True) in EDGE_KEYS[ann]
+
+
 def gen_value(r, ann, used):
     for _ in range(8):
         k = r.random()
-        if ann in AIMED and k < .7:
+        if ann in EDGE and k < .2:
+            s = J(r.choice(EDGE[ann]))
+        elif ann in AIMED and k < .7:
             s = AIMED[ann](r)
         elif k < .80:
             s = J(gen_json(r))
@@ -310,8 +343,50 @@ def enum_cases(maxn=3):
     return out
 
 
+def edge_cases():
+    """every (annotation, edge value of that annotation) of EDGE, sent positionally and by keyword, alone and behind an
+    un-annotated parameter, to an in-scope signature with parsing on (one in eight with parsing off: then it must arrive
+    as sent whatever it is); formatter / serializer / sync-async rotate"""
+    combos = [("proxy", "json"), ("json", "json"), ("proxy", "pickle")]
+    out, n = [], 0
+    for ann in sorted(EDGE):
+        for v in EDGE[ann]:
+            for how in ("pos", "kw"):
+                n += 1
+                fmt, ser = combos[n % 3]
+                lead = n % 5 == 0
+                params = ([dict(name="a", kind="pos", ann=None, default=False, dep=None)] if lead else []) + \
+                    [dict(name="b", kind="pos" if how == "pos" or n % 2 else "kw", ann=ann, default=n % 7 == 0, dep=None)]
+                args = ([J("lead")] if lead else []) + ([J(v)] if how == "pos" else [])
+                out.append(dict(params=params, ret=None, validate=(n % 8 != 0), fmt=fmt, ser=ser, args=args,
+                                kwargs=[["b", J(v)]] if how == "kw" else [], **{"async": n % 2 == 0}))
+    return out
+
+
+def vkind(cv):
+    """coarse kind of a canonical wire value, for the evidence distribution"""
+    t = cv[0]
+    if t == "float":
+        f = float.fromhex(cv[1])
+        return "float_integral" if f == int(f) and abs(f) < 2.0**63 else "float_fractional_or_huge"
+    if t == "str":
+        s = cv[1]
+        if s.isascii() and s.lstrip("-").isdigit() and s == str(int(s)):
+            return "str_plain_int"
+        return "str_numeric_like" if any(ch.isdigit() for ch in s) else "str_other"
+    return t
+
+
 def in_scope(case):
     return all(p["kind"] in ("pos", "kw") for p in case["params"])
+
+
+def sent_pairs(case):
+    """(parameter, value spec) for the named parameters as the generator aimed them (positional prefix, keywords)"""
+    named = [p for p in case["params"] if p["kind"] in ("pos", "kw")]
+    byname = {p["name"]: p for p in named}
+    pos = [p for p in named if p["kind"] == "pos"]
+    return list(zip(pos, case["args"])) + [(byname[k], sp) for k, sp in case["kwargs"] if k in byname]
 
 
 def has_type(case):
@@ -558,6 +633,10 @@ def branch_counts(rep, case, o):
                 rep.count("parse:%s_%s" % (where, {"val": "converted", "swallowed": "kept_after_failure", "raise": "raise"}[table[(t, cj(v))]]))
             if p["kind"] != "pos" and where == "pos":
                 rep.count("parse:positional_slot_of_non_positional_param")
+    for tn, cv in o.get("consulted", []):
+        if tn in ("int", "float", "bool", "str"):
+            rep.count("conv:%s<-%s:%s" % (tn, vkind(cv), {"val": "converted", "swallowed": "refused(arrives unchanged)",
+                                                         "raise": "raise"}.get(table.get((tn, cj(cv))), "?")))
     if o["pybind"] is None:
         e = o["pybind_err"]
         rep.count("bind:reject:" + ("multiple_values" if "multiple values" in e else "missing" if "missing" in e else
@@ -580,6 +659,12 @@ def explore(ctx, rep, cases, label, observe_only=False):
         rep.count("fmt:%s/%s" % (c["fmt"], c["ser"]))
         rep.count("fn:" + ("async" if c["async"] else "sync"))
         rep.count("scope:" + ("in" if in_scope(c) else "var_kinds(model only)"))
+        ne = sum(is_edge(p["ann"], sp) for p, sp in sent_pairs(c))
+        if ne:
+            rep.count("edge_value_for_annotation(constructor vs pydantic):cases")
+            for p, sp in sent_pairs(c):
+                if is_edge(p["ann"], sp):
+                    rep.count("edge_value_for_annotation:" + p["ann"])
         fails = oracle(c, o)
         for what, got, want in fails:
             if observe_only:
@@ -639,6 +724,10 @@ def run(ctx):
                                            "{un-annotated, Any, int} x {required, defaulted, dependency} x every accepted "
                                            "positional/keyword/unsent split" % (len(ex), nmax))
     broken = explore(ctx, rep, ex, "small_scope") or broken
+    eg = edge_cases()
+    rep.extra["edge_table"] = ("%d cases: every (annotation, value) of the constructor-vs-pydantic edge grammar (%s) sent "
+                               "positionally and by keyword" % (len(eg), ", ".join("%s:%d" % (a, len(EDGE[a])) for a in sorted(EDGE))))
+    broken = explore(ctx, rep, eg, "edge_table") or broken
     if (broken or any(not o["ok"] for o in rep.obligations)) and not rep.failures:
         r2 = ctx.sub_rng("search")
         explore(ctx, rep, [gen_case(r2) for _ in range(ctx.n(10000, 100000))], "search")
